@@ -106,4 +106,62 @@ def run(prop, vunits, scratch_root, run_verus_unit, repo):
             res["infra"] = ("vacuous contract: `assert(false)` at function entry was PROVED for " + ", ".join(proved[:8]) +
                             f" in unit {u['name']} (unsatisfiable precondition)")
         results.append(res)
+        results.append(_path_canaries(u, scratch_root, run_verus_unit))
     return results
+
+
+def _path_canaries(u, scratch_root, run_verus_unit):
+    """second guard: a reachability canary after every statement of every extracted function (vx.rw_path_canaries).  A
+    canary that is NOT rejected marks a point the verifier considers unreachable: a contradiction among the assumed
+    contracts of the doubles (or the contract itself) makes everything after it vacuous.  One obligation per function:
+      <unit>::<fn>::canary(all N statement points reachable)"""
+    import vx
+    res = dict(unit=u["name"] + "#pathcanary", engine="verus", obligations=[], failures=[], infra=None,
+               report=[], assumptions=[], wall=0.0, functions=[])
+    vx.PATH_CANARIES[0] = True
+    try:
+        r = run_verus_unit(u, os.path.join(scratch_root, "pathcanary_" + u["name"]), "thorough",
+                           extra_flags=("--multiple-errors", "2000"))
+    finally:
+        vx.PATH_CANARIES[0] = False
+    res["wall"] = r.get("wall", 0.0)
+    if r.get("infra"):
+        # the canaries multiply the work per function: a resource limit here is not a statement about the unit
+        res["report"].append(("note", "path-canary run undecided: " + r["infra"][:200]))
+        if "resource limit" not in r["infra"]:
+            res["infra"] = "path-canary run: " + r["infra"]
+        return res
+    import json as _json
+    inserted = {}
+    for item in r.get("report", []):
+        for rw in (item.get("rewrites", []) if isinstance(item, dict) else []):
+            m = re.match(r"^CANARY: path canaries in (.+?): (\{.*\})$", rw if isinstance(rw, str) else "")
+            if m:
+                inserted.setdefault(m.group(1), {}).update({int(k): v for k, v in _json.loads(m.group(2)).items()})
+    rejected = set()
+    for f in r["failures"]:
+        for lab in (f.get("labels") or []):
+            m = re.match(r"^CANARY\.path\.(\d+)$", lab)
+            if m:
+                rejected.add(int(m.group(1)))
+    # points that are unreachable in the real code (dead code that the proof shows to be dead): listed, with the reason, in
+    # /verif/canary_unreachable.json, keyed by unit, function and the text of the statement / block header
+    try:
+        allow = _json.load(open(os.path.join(os.path.dirname(os.path.dirname(os.path.abspath(__file__))), "canary_unreachable.json")))
+    except OSError:
+        allow = {}
+    allowed = {k for k in allow.get(u["name"], {})}
+    bad = []
+    for fn, ids in sorted(inserted.items()):
+        missing = sorted(c for c in ids if c not in rejected and f"{fn}::{ids[c]}" not in allowed)
+        n_allowed = sum(1 for c in ids if c not in rejected and f"{fn}::{ids[c]}" in allowed)
+        res["obligations"].append(dict(
+            name=f"{u['name']}::{fn}::canary(all {len(ids)} statement points reachable" + (f", {n_allowed} listed dead-code point(s) excepted" if n_allowed else "") + ")",
+            props=u["props"], kind="canary",
+            status="failed" if missing else "discharged", backend="z3-via-verus", seconds=None))
+        if missing:
+            bad.append(f"{fn} [" + "; ".join(ids[c] for c in missing[:4]) + "]")
+    if bad:
+        res["infra"] = ("vacuous path: a reachability canary was PROVED (the verifier considers the point unreachable, so "
+                        "everything after it is proved vacuously) in unit " + u["name"] + ": " + "; ".join(bad[:6]))
+    return res
